@@ -187,9 +187,9 @@ type session struct {
 	socket                         socket.Socket
 	closeNotifyCh                  chan struct{} // closeNotifyCh is the channel returned by CloseNotify.
 	writeLock                      sync.Mutex
-	graceCtxWaitGroup              sync.WaitGroup
+	graceCtxWaitGroup              graceCounter
 	graceCtxMutex                  sync.Mutex
-	graceCallCmdWaitGroup          sync.WaitGroup
+	graceCallCmdWaitGroup          graceCounter
 	sessionAge                     time.Duration
 	contextAge                     time.Duration
 	sessionAgeLock                 sync.RWMutex
@@ -301,6 +301,49 @@ func (s *session) Health() bool {
 		return true
 	}
 	return false
+}
+
+// graceCounter counts the contexts being handled and the calls awaiting their reply, for the
+// graceful close to wait for.  It is used like a sync.WaitGroup, but a message may arrive or a call
+// may be launched while a Close is already waiting, and sync.WaitGroup forbids an Add that takes
+// the counter from zero concurrently with Wait (it may panic, and the race detector reports it).
+type graceCounter struct {
+	mu   sync.Mutex
+	n    int
+	zero chan struct{} // closed when n drops to zero; nil while nobody waits
+}
+
+// Add adds delta, which may be negative, to the counter.
+func (g *graceCounter) Add(delta int) {
+	g.mu.Lock()
+	g.n += delta
+	if g.n < 0 {
+		g.mu.Unlock()
+		panic("erpc: negative graceCounter counter")
+	}
+	if g.n == 0 && g.zero != nil {
+		close(g.zero)
+		g.zero = nil
+	}
+	g.mu.Unlock()
+}
+
+// Done decrements the counter by one.
+func (g *graceCounter) Done() { g.Add(-1) }
+
+// Wait blocks until the counter is zero.
+func (g *graceCounter) Wait() {
+	g.mu.Lock()
+	if g.n == 0 {
+		g.mu.Unlock()
+		return
+	}
+	if g.zero == nil {
+		g.zero = make(chan struct{})
+	}
+	zero := g.zero
+	g.mu.Unlock()
+	<-zero
 }
 
 func (s *session) graceCtxWait() {
